@@ -198,7 +198,10 @@ class RemoteProxy(BaseProxy):
         except (asyncio.TimeoutError, asyncio.IncompleteReadError):
             pass
         await self._channel.close()
-        await self._reader_task
+        # stop() is also called from within the reader task itself (if
+        # handling a request fails); a task cannot wait for itself.
+        if self._reader_task is not asyncio.current_task():
+            await self._reader_task
 
 
 def extract_version(meta: Meta) -> List[int]:
